@@ -15,7 +15,7 @@
   * rejection happens at compile time: `Search` evaluates nothing when
     `Compile` fails (`C04_rejection_precedes_evaluation`).
   * COMPLETENESS (partial): every sentence written by the precedence-aware
-    printer — the projection-free fragment, with minimal or full
+    printer — all constructs including projections, with any redundant
     parentheses — compiles (`C04_printed_sentences_compile_partial`).  That
     every sentence of the ambiguous ABNF has such a printed form is NOT proved
     (it is a fact about the grammar, not about the code); the correspondence
@@ -97,13 +97,15 @@ theorem C04_rejection_precedes_evaluation (expr : Bytes) (e : Err) (doc : Val N)
     Api.search Model.cfg expr doc = .err e := by
   simp only [Api.search, h]
 
-/-- Completeness on the printed fragment: every expression of `Spec.PE`,
-    written with minimal or with full parentheses, is accepted. -/
-theorem C04_printed_sentences_compile_partial (e : PE N) (hw : Parser.wf e) (full : Bool) :
-    ∃ ast : Node N, parseTokens Generated.table (ppE full e ++ [eofTok 0]) = .ok ast := by
+/-- Completeness on printed forms: every concrete syntax tree of `Spec.PE`
+    (all operators, calls, multi-selects, the five projection forms with their
+    right-hand sides, explicit parentheses anywhere) is accepted when written
+    by the printer. -/
+theorem C04_printed_sentences_compile_partial (e : PE N) (hw : Parser.wf e) :
+    ∃ ast : Node N, parseTokens Generated.table (ppE e ++ [eofTok 0]) = .ok ast := by
   refine ⟨node e, ?_⟩
   rw [parseTokens_congr (sameDecisions_of_tableOK Generated.table Spec.table generated_table_ok spec_table_ok)]
-  exact round_trip_spec e hw full
+  exact round_trip_spec e hw
 
 def isOk {α} : Res α → Bool
   | .ok _ => true
